@@ -9,7 +9,8 @@
 //!   chunkings of mode all2 in this order: no cut; [i] for 0<i<n; [i,j] for 0<i<j<n  (no empty chunk).
 //!   rendering: records "[f,f,..]" concatenated, fields lower-case hex; "PANIC:<msg>" if the evaluation panicked.
 //! infer:  {"id","hex"} -> {"id","dialect":[delim,quote]|null, "schema":{"has_header":b,"cols":[[name,type]..]}|{"err":..}}
-//!         (same sequence as ReadCsv::bind: infer_from_sample(..).unwrap_or_default(), decode the sample, infer_from_records)
+//!         (same sequence as ReadCsv::bind: eof = short read, infer_from_sample_with_eof(..).unwrap_or_default(), decode the
+//!         sample (+ end-of-input signal at eof), infer_from_records)
 //! reader: {"id","hex","delim","quote","has_header","types":["Boolean"|"Int64"|"Float64"|"Utf8"..],"read_buf":n,"batch":n}
 //!   -> {"id","rows":[[cell..]..]} | {"id","err":..,"rows":[rows before the error]} ; the real CsvReader over a memory file.
 use std::io::{BufRead, Write};
@@ -159,11 +160,15 @@ fn run_infer(case: &Value) -> Value {
         let n = usize::min(data.len(), INFER_BUF_SIZE);
         let sample = &data[0..n];
         let mut records = ByteRecords::with_buffer_capacity(INFER_BUF_SIZE);
-        let inferred = DialectOptions::infer_from_sample(sample, &mut records);
+        let eof = data.len() < INFER_BUF_SIZE;
+        let inferred = DialectOptions::infer_from_sample_with_eof(sample, eof, &mut records);
         let dialect = inferred.unwrap_or_default();
         records.clear_all();
         let mut decoder = CsvDecoder::new(dialect);
         let _ = decoder.decode(sample, &mut records);
+        if eof {
+            let _ = decoder.decode(&[], &mut records);
+        }
         let schema = match CsvSchema::infer_from_records(&records) {
             Ok(s) => {
                 let cols: Vec<Value> = s
